@@ -1,0 +1,154 @@
+//! Verification-only association-list stand-ins for hash maps / sets.
+use std::borrow::Borrow;
+use std::fmt;
+
+pub const CAP: usize = 4;
+/// Vec-backed, capacity reserved once, never grown (no realloc, no bulk copies).
+pub struct VecMap<K, V> { e: Vec<(K, V)> }
+/// Verification builds never free map entries: dropping a map leaks its elements so that
+/// symbolic execution does not walk the drop glue of `Value` (BTreeMap arm).
+#[allow(unsafe_code)]
+impl<K, V> Drop for VecMap<K, V> { fn drop(&mut self) { unsafe { self.e.set_len(0); } } }
+impl<K, V> Default for VecMap<K, V> { fn default() -> Self { Self { e: Vec::with_capacity(CAP) } } }
+impl<K: Clone, V: Clone> Clone for VecMap<K, V> { fn clone(&self) -> Self { let mut m = Self::default(); for p in self.e.iter() { m.push_new(p.0.clone(), p.1.clone()); } m } }
+impl<K: fmt::Debug, V: fmt::Debug> fmt::Debug for VecMap<K, V> {
+    fn fmt(&self, f: &mut fmt::Formatter<'_>) -> fmt::Result { f.debug_map().entries(self.iter()).finish() }
+}
+impl<K, V> VecMap<K, V> {
+    pub fn new() -> Self { Self::default() }
+    pub fn with_capacity(_n: usize) -> Self { Self::default() }
+    pub fn with_hasher<S>(_s: S) -> Self { Self::default() }
+    pub fn with_capacity_and_hasher(_n: usize, _s: super::hash::FxBuildHasherShim) -> Self { Self::default() }
+    pub fn len(&self) -> usize { self.e.len() }
+    pub fn is_empty(&self) -> bool { self.e.is_empty() }
+    pub fn clear(&mut self) { while let Some(p) = self.e.pop() { drop(p); } }
+    pub fn capacity(&self) -> usize { CAP }
+    pub fn reserve(&mut self, _n: usize) {}
+    pub fn shrink_to_fit(&mut self) {}
+    pub fn iter(&self) -> Iter<'_, K, V> { Iter { it: self.e.iter() } }
+    pub fn iter_mut(&mut self) -> IterMut<'_, K, V> { IterMut { it: self.e.iter_mut() } }
+    pub fn keys(&self) -> impl Iterator<Item = &K> + '_ { self.e.iter().map(|p| &p.0) }
+    pub fn values(&self) -> impl Iterator<Item = &V> + '_ { self.e.iter().map(|p| &p.1) }
+    pub fn values_mut(&mut self) -> impl Iterator<Item = &mut V> + '_ { self.e.iter_mut().map(|p| &mut p.1) }
+    pub fn into_keys(self) -> impl Iterator<Item = K> { self.into_iter().map(|p| p.0) }
+    pub fn into_values(self) -> impl Iterator<Item = V> { self.into_iter().map(|p| p.1) }
+    pub fn drain(&mut self) -> IntoIter<K, V> { let m = std::mem::take(self); m.into_iter() }
+    pub fn retain<F: FnMut(&K, &mut V) -> bool>(&mut self, mut f: F) {
+        let mut i = self.e.len();
+        while i > 0 { i -= 1; let keep = { let p = &mut self.e[i]; f(&p.0, &mut p.1) }; if !keep { drop(self.e.swap_remove(i)); } }
+    }
+    #[allow(unsafe_code)]
+    fn push_new(&mut self, k: K, v: V) -> usize {
+        let i = self.e.len();
+        if i >= CAP { panic!("kani_shim: map capacity exceeded (verification bound)"); }
+        // capacity CAP was reserved at construction; write in place, never grow
+        unsafe { std::ptr::write(self.e.as_mut_ptr().add(i), (k, v)); self.e.set_len(i + 1); }
+        i
+    }
+}
+impl<K: Eq, V> VecMap<K, V> {
+    /// Fixed trip count (CAP), no early exit: keeps symbolic execution linear.
+    fn pos<Q: ?Sized + Eq>(&self, k: &Q) -> Option<usize> where K: Borrow<Q> {
+        let n = self.e.len();
+        let mut found: Option<usize> = None;
+        let mut i = 0;
+        while i < CAP { if i < n && found.is_none() && self.e[i].0.borrow() == k { found = Some(i); } i += 1; }
+        found
+    }
+    pub fn insert(&mut self, k: K, v: V) -> Option<V> {
+        match self.pos(&k) { Some(i) => Some(std::mem::replace(&mut self.e[i].1, v)), None => { self.push_new(k, v); None } }
+    }
+    pub fn get<Q: ?Sized + Eq>(&self, k: &Q) -> Option<&V> where K: Borrow<Q> { match self.pos(k) { Some(i) => Some(&self.e[i].1), None => None } }
+    pub fn get_key_value<Q: ?Sized + Eq>(&self, k: &Q) -> Option<(&K, &V)> where K: Borrow<Q> { match self.pos(k) { Some(i) => Some((&self.e[i].0, &self.e[i].1)), None => None } }
+    pub fn get_mut<Q: ?Sized + Eq>(&mut self, k: &Q) -> Option<&mut V> where K: Borrow<Q> { match self.pos(k) { Some(i) => Some(&mut self.e[i].1), None => None } }
+    pub fn contains_key<Q: ?Sized + Eq>(&self, k: &Q) -> bool where K: Borrow<Q> { self.pos(k).is_some() }
+    pub fn remove<Q: ?Sized + Eq>(&mut self, k: &Q) -> Option<V> where K: Borrow<Q> { self.remove_entry(k).map(|p| p.1) }
+    pub fn remove_entry<Q: ?Sized + Eq>(&mut self, k: &Q) -> Option<(K, V)> where K: Borrow<Q> { match self.pos(k) { Some(i) => Some(self.e.swap_remove(i)), None => None } }
+    pub fn entry(&mut self, k: K) -> Entry<'_, K, V> {
+        match self.pos(&k) { Some(i) => Entry::Occupied(OccupiedEntry { m: self, i }), None => Entry::Vacant(VacantEntry { m: self, k }) }
+    }
+}
+pub struct Iter<'a, K, V> { it: std::slice::Iter<'a, (K, V)> }
+impl<'a, K, V> Iterator for Iter<'a, K, V> { type Item = (&'a K, &'a V); fn next(&mut self) -> Option<Self::Item> { self.it.next().map(|p| (&p.0, &p.1)) } fn size_hint(&self) -> (usize, Option<usize>) { self.it.size_hint() } }
+impl<K, V> ExactSizeIterator for Iter<'_, K, V> {}
+impl<K, V> Clone for Iter<'_, K, V> { fn clone(&self) -> Self { Iter { it: self.it.clone() } } }
+pub struct IterMut<'a, K, V> { it: std::slice::IterMut<'a, (K, V)> }
+impl<'a, K, V> Iterator for IterMut<'a, K, V> { type Item = (&'a K, &'a mut V); fn next(&mut self) -> Option<Self::Item> { self.it.next().map(|p| (&p.0, &mut p.1)) } }
+pub struct IntoIter<K, V> { it: std::vec::IntoIter<(K, V)> }
+impl<K, V> Iterator for IntoIter<K, V> { type Item = (K, V); fn next(&mut self) -> Option<(K, V)> { self.it.next() } fn size_hint(&self) -> (usize, Option<usize>) { self.it.size_hint() } }
+impl<K, V> ExactSizeIterator for IntoIter<K, V> {}
+impl<K, V> IntoIterator for VecMap<K, V> { type Item = (K, V); type IntoIter = IntoIter<K, V>; fn into_iter(mut self) -> IntoIter<K, V> { let e = std::mem::take(&mut self.e); IntoIter { it: e.into_iter() } } }
+impl<'a, K, V> IntoIterator for &'a VecMap<K, V> { type Item = (&'a K, &'a V); type IntoIter = Iter<'a, K, V>; fn into_iter(self) -> Iter<'a, K, V> { self.iter() } }
+impl<'a, K, V> IntoIterator for &'a mut VecMap<K, V> { type Item = (&'a K, &'a mut V); type IntoIter = IterMut<'a, K, V>; fn into_iter(self) -> IterMut<'a, K, V> { self.iter_mut() } }
+impl<K: Eq, V> FromIterator<(K, V)> for VecMap<K, V> { fn from_iter<I: IntoIterator<Item = (K, V)>>(it: I) -> Self { let mut m = Self::default(); for (k, v) in it { m.insert(k, v); } m } }
+impl<K: Eq, V> Extend<(K, V)> for VecMap<K, V> { fn extend<I: IntoIterator<Item = (K, V)>>(&mut self, it: I) { for (k, v) in it { self.insert(k, v); } } }
+impl<K: Eq, V: PartialEq> PartialEq for VecMap<K, V> { fn eq(&self, o: &Self) -> bool { self.len() == o.len() && self.iter().all(|p| o.get(p.0) == Some(p.1)) } }
+impl<K: Eq, V: Eq> Eq for VecMap<K, V> {}
+impl<K: Eq + Borrow<Q>, Q: ?Sized + Eq, V> std::ops::Index<&Q> for VecMap<K, V> { type Output = V; fn index(&self, k: &Q) -> &V { self.get(k).expect("no entry found for key") } }
+
+pub enum Entry<'a, K, V> { Occupied(OccupiedEntry<'a, K, V>), Vacant(VacantEntry<'a, K, V>) }
+pub struct OccupiedEntry<'a, K, V> { m: &'a mut VecMap<K, V>, i: usize }
+pub struct VacantEntry<'a, K, V> { m: &'a mut VecMap<K, V>, k: K }
+impl<'a, K, V> Entry<'a, K, V> {
+    pub fn or_insert(self, v: V) -> &'a mut V { match self { Entry::Occupied(o) => o.into_mut(), Entry::Vacant(e) => e.insert(v) } }
+    pub fn or_insert_with<F: FnOnce() -> V>(self, f: F) -> &'a mut V { match self { Entry::Occupied(o) => o.into_mut(), Entry::Vacant(e) => e.insert(f()) } }
+    pub fn or_default(self) -> &'a mut V where V: Default { self.or_insert_with(V::default) }
+    pub fn and_modify<F: FnOnce(&mut V)>(mut self, f: F) -> Self { if let Entry::Occupied(o) = &mut self { f(o.get_mut()); } self }
+    pub fn key(&self) -> &K { match self { Entry::Occupied(o) => o.key(), Entry::Vacant(v) => &v.k } }
+}
+impl<'a, K, V> OccupiedEntry<'a, K, V> {
+    pub fn key(&self) -> &K { &self.m.e[self.i].0 }
+    pub fn get(&self) -> &V { &self.m.e[self.i].1 }
+    pub fn get_mut(&mut self) -> &mut V { &mut self.m.e[self.i].1 }
+    pub fn into_mut(self) -> &'a mut V { &mut self.m.e[self.i].1 }
+    pub fn insert(&mut self, v: V) -> V { std::mem::replace(&mut self.m.e[self.i].1, v) }
+    pub fn remove(self) -> V { self.m.e.swap_remove(self.i).1 }
+    pub fn remove_entry(self) -> (K, V) { self.m.e.swap_remove(self.i) }
+}
+impl<'a, K, V> VacantEntry<'a, K, V> {
+    pub fn key(&self) -> &K { &self.k }
+    pub fn insert(self, v: V) -> &'a mut V { let i = self.m.push_new(self.k, v); &mut self.m.e[i].1 }
+}
+
+#[derive(Clone)]
+pub struct VecSet<T> { m: VecMap<T, ()> }
+impl<T> Default for VecSet<T> { fn default() -> Self { Self { m: VecMap::default() } } }
+impl<T: fmt::Debug> fmt::Debug for VecSet<T> { fn fmt(&self, f: &mut fmt::Formatter<'_>) -> fmt::Result { f.debug_set().entries(self.iter()).finish() } }
+impl<T> VecSet<T> {
+    pub fn new() -> Self { Self::default() }
+    pub fn with_capacity(_n: usize) -> Self { Self::default() }
+    pub fn with_hasher<S>(_s: S) -> Self { Self::default() }
+    pub fn with_capacity_and_hasher(_n: usize, _s: super::hash::FxBuildHasherShim) -> Self { Self::default() }
+    pub fn len(&self) -> usize { self.m.len() }
+    pub fn is_empty(&self) -> bool { self.m.is_empty() }
+    pub fn clear(&mut self) { self.m.clear() }
+    pub fn reserve(&mut self, _n: usize) {}
+    pub fn iter(&self) -> SetIter<'_, T> { SetIter { it: self.m.iter() } }
+    pub fn drain(&mut self) -> impl Iterator<Item = T> + '_ { self.m.drain().map(|p| p.0) }
+    pub fn retain<F: FnMut(&T) -> bool>(&mut self, mut f: F) { self.m.retain(|k, _| f(k)) }
+}
+impl<T: Eq> VecSet<T> {
+    pub fn insert(&mut self, t: T) -> bool { if self.m.contains_key(&t) { return false; } self.m.push_new(t, ()); true }
+    pub fn contains<Q: ?Sized + Eq>(&self, k: &Q) -> bool where T: Borrow<Q> { self.m.contains_key(k) }
+    pub fn get<Q: ?Sized + Eq>(&self, k: &Q) -> Option<&T> where T: Borrow<Q> { self.m.get_key_value(k).map(|p| p.0) }
+    pub fn remove<Q: ?Sized + Eq>(&mut self, k: &Q) -> bool where T: Borrow<Q> { self.m.remove(k).is_some() }
+    pub fn take<Q: ?Sized + Eq>(&mut self, k: &Q) -> Option<T> where T: Borrow<Q> { self.m.remove_entry(k).map(|p| p.0) }
+    pub fn is_subset(&self, o: &Self) -> bool { self.iter().all(|t| o.contains(t)) }
+    pub fn is_disjoint(&self, o: &Self) -> bool { self.iter().all(|t| !o.contains(t)) }
+    pub fn intersection<'a>(&'a self, o: &'a Self) -> impl Iterator<Item = &'a T> + 'a { self.iter().filter(move |t| o.contains(*t)) }
+    pub fn difference<'a>(&'a self, o: &'a Self) -> impl Iterator<Item = &'a T> + 'a { self.iter().filter(move |t| !o.contains(*t)) }
+    pub fn union<'a>(&'a self, o: &'a Self) -> impl Iterator<Item = &'a T> + 'a { self.iter().chain(o.iter().filter(move |t| !self.contains(*t))) }
+}
+pub struct SetIter<'a, T> { it: Iter<'a, T, ()> }
+impl<'a, T> Iterator for SetIter<'a, T> { type Item = &'a T; fn next(&mut self) -> Option<&'a T> { self.it.next().map(|p| p.0) } fn size_hint(&self) -> (usize, Option<usize>) { self.it.size_hint() } }
+impl<T> ExactSizeIterator for SetIter<'_, T> {}
+impl<T> Clone for SetIter<'_, T> { fn clone(&self) -> Self { SetIter { it: self.it.clone() } } }
+pub struct SetIntoIter<T> { it: IntoIter<T, ()> }
+impl<T> Iterator for SetIntoIter<T> { type Item = T; fn next(&mut self) -> Option<T> { self.it.next().map(|p| p.0) } }
+impl<T> IntoIterator for VecSet<T> { type Item = T; type IntoIter = SetIntoIter<T>; fn into_iter(self) -> SetIntoIter<T> { SetIntoIter { it: self.m.into_iter() } } }
+impl<'a, T> IntoIterator for &'a VecSet<T> { type Item = &'a T; type IntoIter = SetIter<'a, T>; fn into_iter(self) -> SetIter<'a, T> { self.iter() } }
+impl<T: Eq> FromIterator<T> for VecSet<T> { fn from_iter<I: IntoIterator<Item = T>>(it: I) -> Self { let mut s = Self::default(); for t in it { s.insert(t); } s } }
+impl<T: Eq> Extend<T> for VecSet<T> { fn extend<I: IntoIterator<Item = T>>(&mut self, it: I) { for t in it { self.insert(t); } } }
+impl<T: Eq> PartialEq for VecSet<T> { fn eq(&self, o: &Self) -> bool { self.len() == o.len() && self.is_subset(o) } }
+impl<T: Eq> Eq for VecSet<T> {}
+
